@@ -125,6 +125,11 @@ def classify(body, use_re):
     if len(guards) > 1:
         return "unknown", "several guards"
     g = guards[0]
+    # the guard has to be the first statement of the function: anything executed before it (for instance a validity test
+    # that reads the subject's containers) runs without the lock
+    lead = top[:g.start()].strip()
+    if lead:
+        return "unknown", "statements before the guard run without the lock: `%s`" % " ".join(lead.split())[:80]
     rest = g.group(2).strip()
     # named object: `lock {m_resource}` / `lock(m_resource)` ; temporary: `{m_resource}` / `(m_resource)`
     nm = re.match(r"^([A-Za-z_]\w*)\s*[\{\(]\s*m_resource\s*[\}\)]$", rest)
